@@ -10,7 +10,7 @@ not_app = []
 hooks_commits = []
 for p in props:
     pid = p['id']
-    if os.path.exists(os.path.join(HERE, 'rules', pid + '.py')):
+    if os.path.exists(os.path.join(HERE, 'rules', pid + '.py')) and pid not in na.get('_pending', []):
         m = importlib.import_module('rules.' + pid)
         meta = getattr(m, 'META', {})
         checks.append({
@@ -25,7 +25,7 @@ for p in props:
             'technique': meta.get('technique', 'static analysis: repository-specific rules over clang AST/CFG facts'),
         })
     else:
-        not_app.append({'property_id': pid, 'reason': na.get(pid, 'check not built yet (DESIGN.md section 7)')})
+        not_app.append({'property_id': pid, 'reason': na.get(pid, 'check built, violations on the unchanged tree still being triaged' if pid in na.get('_pending', []) else 'check not built yet (DESIGN.md section 7)')})
 man = {
     'version': 1,
     'setup_cmd': 'make -C /verif/tools',
